@@ -8,6 +8,7 @@ import (
 
 	"verifharness/contract"
 	"verifharness/core"
+	"verifharness/kf"
 	"verifharness/memstore"
 	"verifharness/oracle"
 )
@@ -109,6 +110,15 @@ func init() {
 				}
 				if id := knownDifferential(c, a.Query, c.Series, a.Start, a.End, a.Step); id != "" {
 					continue
+				}
+				if c.Mode == "dist" || c.Mode == "dist-timesplit" {
+					// the findings of the distributed scope (a query that is not even defined over the
+					// union of the partitions has no single distributed answer either)
+					kc10 := *kc
+					kc10.Prop = "C10"
+					if id := kf.MatchAfterFailure(&kc10); id != "" {
+						continue
+					}
 				}
 				return violation("K=%d concurrent queries (mode %q, procs %d): query #%d %q [%d..%d step %d] differs from its solo result: %s\nconcurrent: %s\nsolo:       %s\n", len(qs), c.Mode, c.Procs, i, a.Query, a.Start, a.End, a.Step, d, res[i], solo[i])
 			}
